@@ -443,6 +443,13 @@ class Evaluator(object):
             return a if cond.b else b
         if same(a, b):
             return a
+        # canonical orientation of the test: ite(x != y, A, B) is ite(x == y, B, A), ite(not c, A, B) is ite(c, B, A) - an early return on
+        # the equal case and a branch on the unequal case then give the same value
+        cn_ = _single_atom(cond) if isinstance(cond, Rat) else None
+        if cn_ is not None and cn_.kind == 'fn' and cn_.name == 'ne' and len(cn_.args) == 2 and 'None' not in cn_.args:
+            return self.ite(alg.opaque('eq', cn_.args), b, a)
+        if cn_ is not None and cn_.kind == 'fn' and cn_.name == 'not' and len(cn_.args) == 1 and isinstance(cn_.args[0], Rat):
+            return self.ite(cn_.args[0], b, a)
         # ite(x is not None, x, None) == x   and   ite(x is None, None, x) == x
         ca = _single_atom(cond) if isinstance(cond, Rat) else None
         if ca is not None and ca.kind == 'fn' and ca.name in ('eq', 'ne') and len(ca.args) == 2 and 'None' in ca.args:
